@@ -45,12 +45,15 @@ fn show_state(tag: &str, s: &State) -> String {
 }
 
 fn show_digest(d: &StateDigest) -> String {
+    // non-empty buckets only: a digest of depth 18 has 262144 buckets
     format!(
-        "root={} count={} maxts={} buckets={}",
+        "root={} count={} maxts={} nb={} buckets={}",
         d.root_hash,
         d.key_count,
         d.max_timestamp,
-        d.buckets.iter().map(|n| format!("{}:{}:{}", n.hash, n.count, n.max_timestamp)).collect::<Vec<_>>().join(",")
+        d.buckets.len(),
+        d.buckets.iter().enumerate().filter(|(_, n)| n.hash != 0 || n.count != 0 || n.max_timestamp != 0)
+            .map(|(i, n)| format!("{}:{}:{}:{}", i, n.hash, n.count, n.max_timestamp)).collect::<Vec<_>>().join(",")
     )
 }
 
@@ -99,7 +102,24 @@ fn words_entries(s: &State, depth: usize, d: &StateDigest, acc: &mut Vec<(Vec<u6
     }
 }
 
+thread_local! {
+    /// word streams already sent to the model since the last RESET (the real hash is a function:
+    /// entries stay valid; deep digests have 2^18 fold steps, they are sent once)
+    static EMITTED: std::cell::RefCell<std::collections::HashSet<Vec<u64>>> = std::cell::RefCell::new(std::collections::HashSet::new());
+}
+
+fn op_reset(out: &mut Out) {
+    EMITTED.with(|e| e.borrow_mut().clear());
+    out.op("RESET".into(), "ok".into());
+}
+
 fn op_words(out: &mut Out, entries: &[(Vec<u64>, u64)]) {
+    let fresh: Vec<&(Vec<u64>, u64)> = EMITTED.with(|e| {
+        let mut e = e.borrow_mut();
+        entries.iter().filter(|(w, _)| e.insert(w.clone())).collect()
+    });
+    let entries: Vec<(Vec<u64>, u64)> = fresh.into_iter().cloned().collect();
+    let entries = &entries[..];
     let mut seen = BTreeSet::new();
     let mut l = String::new();
     let mut m = 0;
@@ -244,7 +264,7 @@ struct Pair {
 /// emit S/W/D/CMP/G for a pair and evaluate the digest oracle; returns the real digests
 fn digest_ops(out: &mut Out, rng: &mut Rng, p: &Pair, src: &str) -> (StateDigest, StateDigest) {
     let (da, db) = (digest_of(&p.a, p.depth), digest_of(&p.b, p.depth));
-    out.op("RESET".into(), "ok".into());
+    op_reset(out);
     op_state(out, "a", p.depth, &p.a);
     op_state(out, "b", p.depth, &p.b);
     let mut w = Vec::new();
@@ -306,6 +326,54 @@ fn digest_ops(out: &mut Out, rng: &mut Rng, p: &Pair, src: &str) -> (StateDigest
             }
         }
     }
+    // ONE bucket function: the bucket under which the DIGEST filed a key must be the bucket the key
+    // FILTERS (get_keys_in_buckets / handle_sync_request, both `KeyDigest::bucket(config depth)`) use
+    for (slot, s, d) in [("a", &p.a, &da), ("b", &p.b, &db)] {
+        let mut mgr = AntiEntropyManager::new(ReplicaId::new(1), AntiEntropyConfig::default());
+        mgr.config.merkle_tree_depth = p.depth;
+        let dg = mgr.generate_digest(s);
+        let mut by_filter_bucket: BTreeMap<usize, Vec<KeyDigest>> = BTreeMap::new();
+        for (k, v) in s.iter() {
+            let kd = KeyDigest::new(k, v);
+            by_filter_bucket.entry(kd.bucket(p.depth)).or_default().push(kd);
+        }
+        let mut bad: Option<String> = None;
+        if dg.buckets.len() != 1usize << p.depth || dg.root_hash != d.root_hash {
+            bad = Some(format!("the digest has {} buckets, the filters bucket keys into 2^{} = {}", dg.buckets.len(), p.depth, 1usize << p.depth));
+        } else {
+            for (i, n) in dg.buckets.iter().enumerate() {
+                let want = match by_filter_bucket.get(&i) {
+                    None => MerkleNode::empty(),
+                    Some(ds) => {
+                        let mut ds = ds.clone();
+                        ds.sort_by_key(|x| (x.key_hash, x.value_hash));
+                        MerkleNode::from_digests(&ds)
+                    }
+                };
+                if want.count != n.count || want.max_timestamp != n.max_timestamp || (want.hash != n.hash) {
+                    bad = Some(format!("digest bucket {} is the node (hash {}, {} key(s)), the keys the filters put there give the node (hash {}, {} key(s))", i, n.hash, n.count, want.hash, want.count));
+                    break;
+                }
+            }
+        }
+        // and the filter itself: asking for exactly one key's bucket returns that key
+        if bad.is_none() {
+            if let Some((k, v)) = s.iter().next() {
+                let b = KeyDigest::new(k, v).bucket(p.depth);
+                mgr.config.max_keys_per_sync = usize::MAX;
+                let got = mgr.get_keys_in_buckets(s, &[b]);
+                if !got.iter().any(|x| x.key == *k) || got.iter().any(|x| KeyDigest::new(&x.key, &x.value).bucket(p.depth) != b) {
+                    bad = Some(format!("get_keys_in_buckets([{}]) does not return exactly the keys of that bucket", b));
+                }
+            }
+        }
+        out.count(&format!("bucket-function:depth{}:{}", if p.depth > 16 { ">16" } else { "<=16" }, if bad.is_none() { "consistent" } else { "MISMATCH" }));
+        if let Some(why) = bad {
+            out.violation("C18:bucket-function-mismatch",
+                &format!("merkle_tree_depth = {}: {} — digest construction and key filters do not use the same bucket function", p.depth, why),
+                json!({"merkle_tree_depth": p.depth, "slot": slot, "state": show_state(slot, s).chars().take(2000).collect::<String>(), "digest_buckets": dg.buckets.len(), "source": src}));
+        }
+    }
     oracle_digests(out, &p.a, &p.b, &da, &db, p.depth, src);
     // run-time check of the ideal-hash assumptions on the values actually used
     let mut kh: BTreeMap<u64, &String> = BTreeMap::new();
@@ -351,7 +419,6 @@ fn sync_ops(out: &mut Out, p: Pair, limit: usize, max_rounds: usize, src: &str) 
         if round > 0 && !da.differs_from(&db) {
             break;
         }
-        out.op("RESET".into(), "ok".into());
         op_state(out, "a", depth, a);
         op_state(out, "b", depth, b);
         let mut w = Vec::new();
@@ -421,6 +488,10 @@ fn sync_ops(out: &mut Out, p: Pair, limit: usize, max_rounds: usize, src: &str) 
             .max(b.iter().filter(|(k, v)| div.contains(&KeyDigest::new(k, v).bucket(depth))).count());
         if left.is_empty() {
             out.count("excluded:sync:non-commutative-merge-residue");
+        } else if limit == 0 {
+            out.violation("C18:sync:config:max_keys_per_sync=0",
+                &format!("sim: max_keys_per_sync = 0 — run_anti_entropy_sync exchanges nothing, {} key(s) can never be delivered (starvation by configuration)", left.len()),
+                json!({"path": "sim", "depth": depth, "limit": 0, "undelivered_keys": left, "a": show_state("a", a), "b": show_state("b", b), "source": src}));
         } else if limit < pop {
             out.violation("C18:sync:limit-starvation:sim:divergent-population>limit",
                 &format!("run_anti_entropy_sync: after {} round(s) with max_keys_per_sync = {} the sync stopped making progress: {} key(s) undelivered, the divergent buckets hold {} keys and the same first {} are re-sent every round", rounds, limit, left.len(), pop, limit),
@@ -486,7 +557,6 @@ fn msg_ops(out: &mut Out, p: Pair, limit: usize, full: bool, max_rounds: usize, 
         for ri in [0usize, 1] {
             let pi = 1 - ri;
             // the model is told both states in their real iteration order, and the real hashes
-            out.op("RESET".into(), "ok".into());
             op_state(out, "a", depth, &sts[0].replicated_keys);
             op_state(out, "b", depth, &sts[1].replicated_keys);
             let mut w = Vec::new();
@@ -590,6 +660,10 @@ fn msg_ops(out: &mut Out, p: Pair, limit: usize, full: bool, max_rounds: usize, 
         out.count("excluded:sync:non-commutative-merge-residue");
     } else if !quiescent {
         out.count(&format!("{}:round-bound-reached", path));
+    } else if limit == 0 {
+        out.violation("C18:sync:config:max_keys_per_sync=0",
+            &format!("{}: max_keys_per_sync = 0 — every answer is empty, {} key(s) can never be delivered (starvation by configuration)", path, left.len()),
+            json!({"path": path, "depth": depth, "limit": 0, "undelivered_keys": left, "a": show_state("a", a), "b": show_state("b", b), "source": src}));
     } else if over_limit_last_round {
         let cond = if full { "state-size>limit" } else { "requested-population>limit" };
         out.violation(&format!("C18:sync:limit-starvation:{}:{}", path, cond),
@@ -608,7 +682,7 @@ fn rv_lww(bytes: &[u8], t: u64, r: u64) -> ReplicatedValue {
 }
 
 /// fixed witnesses, run first on every run (known findings must reproduce)
-fn corpus(out: &mut Out, rng: &mut Rng) {
+fn corpus(out: &mut Out, rng: &mut Rng, thorough: bool) {
     // (1) DESIGN.md §6.1: the same 40 entries inserted in two orders, depth 2
     let content: Vec<(String, ReplicatedValue)> = (0..40).map(|i| (format!("key{}", i), rv_lww(format!("v{}", i).as_bytes(), i as u64 + 1, 1))).collect();
     let p = Pair { a: build(&content, rng), b: build(&content, rng), depth: 2 };
@@ -698,12 +772,88 @@ fn corpus(out: &mut Out, rng: &mut Rng) {
             break;
         }
     }
+    // (5) configuration extremes.  merkle_tree_depth = 18 (2^18 buckets), the scenario of the
+    // round-4 seed: a holds a:0..63, b holds b:0..63, both hold `shared` (newer on b); far fewer keys
+    // than the limit: one exchange must merge everything, on the simulator path and on the message
+    // path.  Digest and key filters must bucket with the SAME depth.
+    {
+        let mut ca: Vec<(String, ReplicatedValue)> = (0..64).map(|i| (format!("a:{}", i), rv_lww(format!("va{}", i).as_bytes(), i as u64 + 1, 1))).collect();
+        let mut cb: Vec<(String, ReplicatedValue)> = (0..64).map(|i| (format!("b:{}", i), rv_lww(format!("vb{}", i).as_bytes(), i as u64 + 1, 2))).collect();
+        ca.push(("shared".into(), rv_lww(b"from-a", 65, 1)));
+        cb.push(("shared".into(), rv_lww(b"from-b-again", 66, 2)));
+        for depth in if thorough { vec![18usize, 17, 20] } else { vec![18usize] } {
+            let p = Pair { a: build(&ca, rng), b: build(&cb, rng), depth };
+            digest_ops(out, rng, &p, &format!("corpus: merkle_tree_depth = {}, 64 + 64 + 1 keys", depth));
+            sync_ops(out, p, 1000, 2, &format!("corpus: merkle_tree_depth = {}, 64 + 64 + 1 keys, simulator path", depth));
+            if depth == 18 {
+                let p = Pair { a: build(&ca, rng), b: build(&cb, rng), depth };
+                msg_ops(out, p, 1000, false, 2, "corpus: merkle_tree_depth = 18, 64 + 64 + 1 keys, message protocol");
+            }
+        }
+    }
+    // max_keys_per_sync = 0: nothing can ever be sent (starvation by configuration), all three paths
+    {
+        let base: Vec<(String, ReplicatedValue)> = (0..3).map(|i| (format!("z{}", i), rv_lww(b"old", 1, 1))).collect();
+        let mut newer = base.clone();
+        newer[1].1 = rv_lww(b"new", 5, 2);
+        sync_ops(out, Pair { a: build(&base, rng), b: build(&newer, rng), depth: 1 }, 0, 3, "corpus: max_keys_per_sync = 0, simulator path");
+        msg_ops(out, Pair { a: build(&base, rng), b: build(&newer, rng), depth: 1 }, 0, false, 3, "corpus: max_keys_per_sync = 0, bucket request");
+        msg_ops(out, Pair { a: build(&base, rng), b: build(&newer, rng), depth: 1 }, 0, true, 3, "corpus: max_keys_per_sync = 0, full-state request");
+    }
+    // merkle_tree_depth is an unvalidated usize: what does `vec![..; 1 << depth]` do at the top of the
+    // range?  (depths 59..63: more than isize::MAX bytes -> "capacity overflow" panic, no allocation
+    // is attempted; 64 / 65: the shift wraps in release builds.  Depths ~30..58 would really try to
+    // allocate 24 * 2^depth bytes and abort the process: not executed.)
+    for d in [59usize, 63, 64, 65] {
+        let empty: State = HashMap::new();
+        let prev = std::panic::take_hook();
+        std::panic::set_hook(Box::new(|_| {}));
+        let r = std::panic::catch_unwind(|| StateDigest::from_state(&empty, ReplicaId::new(1), 0, d).buckets.len());
+        std::panic::set_hook(prev);
+        let ans = match &r {
+            Ok(n) => format!("buckets {}", n),
+            Err(e) => {
+                let msg = e.downcast_ref::<String>().cloned().or_else(|| e.downcast_ref::<&str>().map(|x| x.to_string())).unwrap_or_default();
+                if msg.contains("shift") { "panic shift-overflow".to_string() } else if msg.contains("capacity overflow") { "panic capacity-overflow".to_string() } else { format!("panic {}", msg.replace(' ', "_")) }
+            }
+        };
+        out.op(format!("ALLOC {}", d), ans.clone());
+        if r.is_err() {
+            out.violation("C18:config:merkle_tree_depth:digest-panics",
+                &format!("AntiEntropyConfig {{ merkle_tree_depth: {} }} is accepted, and generate_digest / StateDigest::from_state then panics ({}): a legal configuration crashes every digest computation", d, ans),
+                json!({"merkle_tree_depth": d, "call": "StateDigest::from_state(&{}, r1, 0, depth)", "observed": ans, "expected": "a digest, or a rejected configuration"}));
+        }
+    }
+    // sync intervals: should_sync / create_sync_request bookkeeping at the extremes
+    for interval in [0u64, 1, 1000, u64::MAX] {
+        let mut m = AntiEntropyManager::new(ReplicaId::new(1), AntiEntropyConfig { sync_interval_ms: interval, ..AntiEntropyConfig::default() });
+        let peer = ReplicaId::new(2);
+        let mut bad = !m.should_sync(peer, 0) || !m.should_sync(peer, u64::MAX);
+        let dg = m.generate_digest(&HashMap::new());
+        m.create_sync_request(peer, dg, None, 500);
+        bad |= m.should_sync(peer, 500) != (interval == 0);
+        if let Some(t) = 500u64.checked_add(interval) {
+            bad |= !m.should_sync(peer, t);
+        }
+        if interval >= 2 && interval < u64::MAX {
+            bad |= m.should_sync(peer, 500 + interval - 1);
+        }
+        out.count("should_sync:probed");
+        if bad {
+            out.violation("C18:sync:should-sync", "should_sync disagrees with `never synced, or at least sync_interval_ms since the last request`",
+                json!({"sync_interval_ms": interval}));
+        }
+    }
 }
 
 fn scenario(out: &mut Out, rng: &mut Rng, idx: u64) {
     let pool = if rng.chance(1, 3) { reachable_pool(rng, 12, out) } else { vec![] };
     let n = match rng.below(10) { 0 => 0, 1 => 1, 2 => rng.range(30, 60), _ => rng.range(2, 24) } as usize;
-    let depth = match rng.below(12) { 0 => 0, 1..=3 => 1, 4..=7 => 2, 8..=10 => 3, _ => 8 } as usize;
+    // AntiEntropyConfig is generated input with its legal extremes: deep trees (2^15 .. 2^18 buckets)
+    // in a few cases only (a digest of depth 18 has 262144 fold steps)
+    let deep = rng.below(800) == 0;
+    let depth = if deep { *rng.pick(&[15usize, 16, 17, 18]) } else { (match rng.below(12) { 0 => 0, 1..=3 => 1, 4..=7 => 2, 8..=10 => 3, _ => 8 }) as usize };
+    let n = if deep { n.min(24) } else { n };
     let mut keys = BTreeSet::new();
     for _ in 0..n {
         keys.insert(rand_key(rng));
@@ -729,7 +879,7 @@ fn scenario(out: &mut Out, rng: &mut Rng, idx: u64) {
     out.case(&format!("{}|{}", depth, show_state("s", &p.a)), !content.is_empty() && max_bucket >= 2);
     out.sample(json!({"depth": depth, "keys": content.len(), "max_bucket_population": max_bucket, "state": show_state("s", &p.a).chars().take(300).collect::<String>()}));
     digest_ops(out, rng, &p, &format!("case {}: same content, two builds", idx));
-    if rng.chance(1, 3) {
+    if rng.chance(1, 3) && !deep {
         sync_ops(out, p, 1000, 2, &format!("case {}: equal states", idx));
     }
 
@@ -772,20 +922,20 @@ fn scenario(out: &mut Out, rng: &mut Rng, idx: u64) {
     let p = Pair { a: build(&content, rng), b: build(&other, rng), depth };
     digest_ops(out, rng, &p, &format!("case {}: mutated copy", idx));
     let pop = content.len().max(other.len());
-    let limit = match rng.below(6) { 0 => 1, 1 => rng.range(1, 4) as usize, 2 => pop, _ => 1000 };
-    sync_ops(out, p, limit, if limit >= pop { 2 } else { 5 }, &format!("case {}: mutated copy, limit {}", idx, limit));
+    let limit = match rng.below(12) { 0 | 1 => 1, 2 | 3 => rng.range(1, 4) as usize, 4 | 5 => pop, 6 => 0, _ => 1000 };
+    sync_ops(out, p, limit, if deep { 1 } else if limit >= pop { 2 } else { 5 }, &format!("case {}: mutated copy, limit {}", idx, limit));
 
     // (iii) the message protocol on the same contents: bucket request and full-state request,
     // limits below / at / above the responder's population
     for full in [false, true] {
         if rng.chance(2, 3) {
-            let limit = match rng.below(8) { 0 => 1, 1 => 2, 2 => 5, 3 => 16, 4 => pop.max(1), 5 => (pop + 1) / 2 + 1, _ => 1000 };
-            let bound = (pop / limit.max(1) + 3).min(8);
+            let limit = match rng.below(17) { 0 | 1 => 1, 2 | 3 => 2, 4 | 5 => 5, 6 | 7 => 16, 8 | 9 => pop.max(1), 10 | 11 => (pop + 1) / 2 + 1, 12 => 0, _ => 1000 };
+            let bound = if deep { 1 } else { (pop / limit.max(1) + 3).min(8) };
             let p = Pair { a: build(&content, rng), b: build(&other, rng), depth };
             msg_ops(out, p, limit, full, bound, &format!("case {}: mutated copy, message protocol, limit {}", idx, limit));
         }
     }
-    if rng.chance(1, 4) {
+    if rng.chance(1, 4) && !deep {
         let p = Pair { a: build(&content, rng), b: build(&content, rng), depth };
         msg_ops(out, p, *rng.pick(&[1usize, 5, 1000]), rng.chance(1, 2), 2, &format!("case {}: equal states, message protocol", idx));
     }
@@ -795,7 +945,7 @@ pub fn run(a: &Args) {
     let mut out = Out::new(&a.out);
     let mut rng = Rng::new(a.seed);
     let mut cr = Rng::new(18);
-    corpus(&mut out, &mut cr);
+    corpus(&mut out, &mut cr, a.tier == "thorough");
     for i in 0..a.n {
         scenario(&mut out, &mut rng, i);
     }
